@@ -644,6 +644,20 @@ func (o *operation) handle() {
 	// And finally we can define the transformed request bodies.
 	switch {
 	case skipBody:
+		if o.clientEnveloper != nil && o.methodConf.streamType&connect.StreamTypeClient == 0 {
+			// The one request message of this method was consumed to build the
+			// request line. The client's stream must end here: another message,
+			// or a malformed or cut-off envelope, is an error like on any other
+			// path, although none of it would be passed on.
+			var envBuf envelopeBytes
+			if _, err := io.ReadFull(o.request.Body, envBuf[:]); !errors.Is(err, io.EOF) {
+				if err == nil {
+					err = errExtraRequestMessage
+				}
+				rw.reportError(malformedRequestError(err))
+				return
+			}
+		}
 		// drain any contents of body so downstream handler sees empty
 		o.drainBody(o.request.Body)
 	case sameRequestCompression && sameRequestCodec && !mustDecodeRequest && !reqMsg.alwaysCompress:
